@@ -76,6 +76,30 @@ func main() {
 			mark("ACK %d", i)
 		case "sleep":
 			time.Sleep(time.Duration(op.Ms) * time.Millisecond)
+		case "dump":
+			// in-process dump of every bucket (the view "just before the shutdown")
+			d := wl.Dump{Phase: "pre-shutdown"}
+			for _, b := range buckets {
+				bd := wl.BucketDump{Key: b.Key()}
+				rows, err := in.QueryAll(b)
+				if err != nil {
+					bd.Error = err.Error()
+				} else if rows.Len() > 0 {
+					bd.Epoch, bd.Nanos = rows.Epoch, rows.Nanos
+					for ci, n := range rows.Names {
+						switch n {
+						case "Tag":
+							bd.Tag, _ = rows.Cols[ci].([]int64)
+						case "Val":
+							bd.Val, _ = rows.Cols[ci].([]int32)
+						}
+					}
+				}
+				d.Buckets = append(d.Buckets, bd)
+			}
+			if len(os.Args) > 3 {
+				wl.WriteJSON(os.Args[3], &d)
+			}
 		case "shutdown":
 			mark("BEG %d", i)
 			in.WAL.Shutdown()
